@@ -54,6 +54,9 @@ const (
 )
 
 // newWallet builds a wallet of the given kind with n addresses (collection: n generated keys).
+// bipBitcoin: bip44 wallets made by newWallet use the bitcoin coin type (set per case by the tests that vary it)
+var bipBitcoin bool
+
 func newWallet(t *rapid.T, kind wkind, seedIdx, n int, ct crypto.CryptoType) wallet.Wallet {
 	var w wallet.Wallet
 	var err error
@@ -61,7 +64,11 @@ func newWallet(t *rapid.T, kind wkind, seedIdx, n int, ct crypto.CryptoType) wal
 	case kDet:
 		w, err = deterministic.NewWallet("det.wlt", "label", fmt.Sprintf("seed-%d", seedIdx), wallet.OptionCryptoType(ct), wallet.OptionGenerateN(uint64(n)))
 	case kBip:
-		w, err = bip44wallet.NewWallet("bip.wlt", "label", mnemonicN(seedIdx), fmt.Sprintf("pass%d", seedIdx%3), wallet.OptionCryptoType(ct), wallet.OptionGenerateN(uint64(n)))
+		opts := []wallet.Option{wallet.OptionCryptoType(ct), wallet.OptionGenerateN(uint64(n))}
+		if bipBitcoin {
+			opts = append([]wallet.Option{wallet.OptionCoinType(wallet.CoinTypeBitcoin)}, opts...)
+		}
+		w, err = bip44wallet.NewWallet("bip.wlt", "label", mnemonicN(seedIdx), fmt.Sprintf("pass%d", seedIdx%3), opts...)
 	case kColl:
 		var cw *collection.Wallet
 		cw, err = collection.NewWallet("coll.wlt", "label", wallet.OptionCryptoType(ct))
